@@ -114,6 +114,33 @@ def r04_2(run, model, an):
                witness="the catch-all arm is unreachable!(): a FIRST token without an arm panics")
 
 
+def r04_29(run, model):
+    run.rule("R04.29", "lowering is linear in the size of the source: in ast::lower a lowered expression (a parameter or local of type "
+                       "ast::Expr / Vec<ast::Expr> / Option<ast::Expr>, e.g. the argument list a call pushes inwards) is moved into the tree "
+                       "once, never cloned - a clone per branch makes the AST exponential in the nesting depth and every later stage walks all "
+                       "of it; expected count zero, the values examined are the coverage")
+    LOWER = "crates/ast/src/lower.rs"
+    ety = re.compile(r"^(&(mut)?)?((Vec|Option|Box)<)*(ast::)?(Expr|Arm|Block|Pat)>*$")
+    fns = [g for g in model.fns(LOWER) if g.body is not None]
+    exprret = {g.name for g in fns if ety.match((g.node.get("ret") or "").replace(" ", ""))}
+    n = 0
+    for f in fns:
+        names = {p_["pat"].get("name") for p_ in f.params() if not p_["self"] and ety.match((p_["ty"] or "").replace(" ", ""))} - {None}
+        for l in S.find(f.body, "Local"):
+            if l.get("init") is not None and any(c["k"] in ("Call", "MethodCall") and S.callee_name(c) in exprret for c in S.walk(l["init"])):
+                names |= set(S.pat_bindings(l["pat"]))
+        n += len(names)
+        for c in S.walk(f.body):
+            if c["k"] == "MethodCall" and c["method"] in ("clone", "cloned", "to_vec", "to_owned") and c["recv"]["k"] == "Path" and \
+                    len(c["recv"]["segs"]) == 1 and c["recv"]["segs"][0] in names:
+                run.ob("R04.29", f"{f.name}|the lowered `{c['recv']['segs'][0]}` is used once", False, site(LOWER, c["sp"]),
+                       f"`{S.norm_ws(run.facts.text(LOWER, c['sp']))}`: a lowered sub-tree is copied",
+                       witness="`(if c { f } else { g })((if c { f } else { g })(..20 levels..))`: 2^20 copies of the innermost argument; a 740-byte "
+                               "file exhausts memory")
+    run.ob("R04.29", "no lowered expression is cloned in ast::lower", True, site(LOWER, None), f"{n} parameters / locals holding lowered syntax examined")
+    run.floor("parameters and locals of ast::lower that hold lowered syntax", n, 30)
+
+
 def r04_3(run, model):
     run.rule("R04.3", "assert preconditions: every grammar function that starts with assert!(p.at(K)) is called only where a test for K guards the call")
     gas = c20.guarded_asserts(run, model)
@@ -791,6 +818,7 @@ def run(run, model):
     # an unbalanced event stream makes the tree builder panic on the input that triggers it (shared with C12 R12.11)
     from rules import c12 as _c12
     run.try_rule(_c12.r12_11, model)
+    run.try_rule(r04_29, model)
     run.rule("R04.28", "an end-of-input question costs no stuck-parser fuel: Parser::eof reads the token stream, not the fuel-limited peek() - "
                        "the Pratt loops ask eof() once per open frame while a right-nested chain unwinds, so a fuel-spending eof() halves the "
                        "nesting the budget covers and the pretended end of input then reaches an `assert!(p.at(..))` (shared with C12 R12.2)")
